@@ -58,8 +58,10 @@ pub fn run_family_into(report: &mut Report, property: &str, family: &str, config
     let threads = threads();
     let pool = rayon::ThreadPoolBuilder::new().num_threads(threads).build().unwrap();
     let small_pool = rayon::ThreadPoolBuilder::new().num_threads((threads / 3).max(2)).build().unwrap();
-    let total_wall = if tier == Tier::Quick { 45.0 } else { 1500.0 };
-    let per_config = Duration::from_secs_f64((total_wall / configs.len().max(1) as f64).max(if tier == Tier::Quick { 3.0 } else { 30.0 }));
+    let mut total_wall = if tier == Tier::Quick { 45.0 } else { 1500.0 };
+    // tooling only (mutation campaigns): a smaller wall budget per family; capped configurations are reported as capped
+    if let Some(w) = std::env::var("VERIF_FAMILY_WALL").ok().and_then(|v| v.parse::<f64>().ok()) { total_wall = w; }
+    let per_config = Duration::from_secs_f64((total_wall / configs.len().max(1) as f64).max(if std::env::var("VERIF_FAMILY_WALL").is_ok() { 0.5 } else if tier == Tier::Quick { 3.0 } else { 30.0 }));
     let limits = Limits { max_states: if tier == Tier::Quick { 400_000 } else { 20_000_000 }, max_wall: per_config, trace: None };
 
     let mut states = 0u64; let mut transitions = 0u64; let mut executions = 0u64; let mut closures = 0u64;
